@@ -14,9 +14,9 @@ Conventions
 * `GeoProperties` (a `BTreeMap<String, GeoValue>`) is a key-sorted association list (`Props`);
 * `VTLPMap` is its `list`; the `map` field is derived data (first index of every entry – true after
   the `fix:` commit 3b5b02f4 which made the layer reader append instead of de-duplicate);
-* `PropertyManager::from_iter` (initial tables of `filter_map_properties`, ordered by frequency) is a
-  parameter `mk`: no observable content depends on it (`VtProps.C11.update_layer_sem` holds for
-  every `mk`); the driver instantiates it with empty tables;
+* `PropertyManager::from_iter` (initial tables of `filter_map_properties`, ordered by frequency) is
+  `fromIter`; the frame theorem is stated for an arbitrary table builder `mk` (no content depends on it),
+  the driver runs the real one so that the operation's output is compared byte for byte;
 * `GeoValue::Null` cannot be produced by the decoder or by `parse_str` and is omitted;
 * float parsing / formatting (`str::parse::<f64>`, `f64::to_string`) are external: the case line
   carries their results for the cells / values that need them.
@@ -275,6 +275,66 @@ def semLayer (l : Layer) : Option SemLayer :=
   | none => none
 
 def semTile (t : Tile) : List (Option SemLayer) := t.layers.map semLayer
+
+/-! ### `PropertyManager::from_iter` (property_manager.rs:128-160): the rebuilt tables
+
+Every key / value of the given property sets exactly once, ordered by (number of uses, value) –
+`sort_unstable_by(|a, b| a.1.cmp(&b.1).then_with(|| a.0.cmp(&b.0)))` on the entries of the counting
+`HashMap` (the comparison is a total order on distinct entries, so the hash order is irrelevant).
+`Ord for GeoValue` (geo/value.rs): variant rank String < Float < Double < Int < UInt < Bool, inside a
+variant the natural order; floats by `total_cmp` (since `fix:` a692f070). -/
+
+def leNat (b : Bytes) : Nat := b.foldr (fun x acc => x.toNat + 256 * acc) 0
+
+/-- key of `f32::total_cmp` / `f64::total_cmp` on the bit pattern (`bits` = width): negative numbers below
+    positive ones, larger magnitude first among the negative -/
+def floatKey (bits : Nat) (b : Bytes) : Nat :=
+  let v := leNat b
+  if v < 2 ^ (bits - 1) then v + 2 ^ (bits - 1) else 2 ^ bits - 1 - v
+
+def valueRank : Value → Nat
+  | .str _ => 0
+  | .float _ => 1
+  | .double _ => 2
+  | .int _ => 3
+  | .uint _ => 4
+  | .bool _ => 5
+
+/-- `a < b` in `Ord for GeoValue` -/
+def valueLt : Value → Value → Bool
+  | .str a, .str b => bytesLt a b
+  | .float a, .float b => floatKey 32 a < floatKey 32 b
+  | .double a, .double b => floatKey 64 a < floatKey 64 b
+  | .int a, .int b => a < b
+  | .uint a, .uint b => a < b
+  | .bool a, .bool b => !a && b
+  | a, b => valueRank a < valueRank b
+
+/-- `map.entry(x).and_modify(|n| *n += 1).or_insert(0)` on an association list -/
+def bump {α} [DecidableEq α] (x : α) : List (α × Nat) → List (α × Nat)
+  | [] => [(x, 0)]
+  | (y, n) :: t => if x = y then (y, n + 1) :: t else (y, n) :: bump x t
+
+/-- insertion into a list ordered by (count, value) -/
+def insertEntry {α} (lt : α → α → Bool) (e : α × Nat) : List (α × Nat) → List (α × Nat)
+  | [] => [e]
+  | h :: t => if h.2 < e.2 || (h.2 == e.2 && lt h.1 e.1) then h :: insertEntry lt e t else e :: h :: t
+
+/-- `make_lookup`: entries sorted by (count, value), counts dropped -/
+def makeLookup {α} (lt : α → α → Bool) (m : List (α × Nat)) : List α :=
+  (m.foldr (insertEntry lt) []).map (·.1)
+
+def bumpAll {α} [DecidableEq α] (xs : List α) (m : List (α × Nat)) : List (α × Nat) :=
+  xs.foldl (fun m x => bump x m) m
+
+/-- the counting loop over all pairs of all property sets, in order -/
+def countKeys (ps : List Props) : List (Bytes × Nat) := bumpAll ((ps.flatMap id).map (·.1)) []
+
+def countVals (ps : List Props) : List (Value × Nat) := bumpAll ((ps.flatMap id).map (·.2)) []
+
+/-- `PropertyManager::from_iter` -/
+def fromIter (ps : List Props) : List Bytes × List Value :=
+  (makeLookup bytesLt (countKeys ps), makeLookup valueLt (countVals ps))
 
 /-! ### `VectorTileLayer::filter_map_properties` (layer.rs:154-180) -/
 
@@ -560,7 +620,7 @@ def dumpLayers (ls : List Layer) : String :=
 `C11u <flags rmi> <layer> <idTiles> <idData> <header> <rows> <fmt> <tilehex>`
   header: `hex,hex,…`; rows: `cell,cell;cell,cell` or `.`; cell: `hex` or `hex~bits~display`;
   fmt: `f<bits>=<hex>,d<bits>=<hex>` or `.`
-  → `builderr` | `ok <dump>` | `err` | `panic`
+  → `builderr` | `ok <hex of the output tile> <dump>` | `err` | `panic`
 
 `C10m <src>,<src>,…` (src = `none` | tilehex) → `none` | `ok <dump, layers in output order>` | `err` | `panic`
 -/
@@ -670,10 +730,10 @@ def handleUpdate (args : List String) : String :=
         | .err => "builderr"
         | .panic => "buildpanic"
         | .ok m =>
-          match runUpdate noTables a f m tile with
+          match runUpdate fromIter a f m tile with
           | .ok out =>
             match decodeTile out with
-            | .ok t => "ok " ++ dumpLayers t.layers
+            | .ok t => "ok " ++ hexOfBytes out ++ " " ++ dumpLayers t.layers
             | _ => "ok-then-fail"
           | .err => "err"
           | .panic => "panic"
